@@ -158,6 +158,17 @@ func (m *Machine) jsonRestore(D types.Type, dst *value, S types.Type, src value,
 	if depth > 64 {
 		panic(unmodelled("json: value too deep"))
 	}
+	// a pointer was marshalled (JSON has no pointers): decode its pointee, null = no effect
+	if sp, isPtr := S.Underlying().(*types.Pointer); isPtr {
+		if _, dstPtr := D.Underlying().(*types.Pointer); !dstPtr {
+			p := src.(*value)
+			if p == nil {
+				return
+			}
+			m.jsonRestore(D, dst, sp.Elem(), *p, depth)
+			return
+		}
+	}
 	switch DU := D.Underlying().(type) {
 	case *types.Basic:
 		if !sameBasicShape(D, S) {
